@@ -12,7 +12,7 @@ RULE = ("all configurations of placed events up to the event bound: per file an 
         "order inside each file, uses written in an eagerly evaluated form (mov #x, r0) and a lazily evaluated one (.word x), under the "
         "link regimes {base set first, base set last, default}; the same with the second file reached through '.include' instead of "
         "linking; a bystander name y that must not interfere; local-label families: every sequence of <= 5 events over {define 1$, use "
-        "1$, ordinary label, include of a file with its own 1$} for '.word 1$' and 'br 1' uses. Oracle = reference resolver written from "
+        "1$, ordinary label, exported label 'name::', include of a file with its own 1$} for '.word 1$' and 'br 1' uses. Oracle = reference resolver written from "
         "the statement: own definition first, else the unique exported one, else an error; duplicate definitions/exports are errors; "
         "local names bind inside the region between ordinary labels of their own file; 13 regions with every pair of regions x 10 local names "
         "of one and two digits (with and without $) defined or only used. Expected bytes follow from the bound definitions. "
